@@ -22,3 +22,15 @@ CHECKS['C16'] = dict(
         'events are compared through the tree\'s own msg_is_before macro, heap.h and msg_queue.c, compiled from /repo',
         'timestamps are non-negative finite doubles (NaN is outside the API contract)',
     ])
+
+CHECKS['C18'] = dict(
+    stages=[
+        stage('h_numeric', ['h_numeric.c'],
+              quick=dict(cases=400000, min_nontrivial=5000, time_budget=120),
+              thorough=dict(cases=8000000, min_nontrivial=50000, time_budget=900)),
+    ],
+    assumptions=[
+        'argument domains are those of the repository\'s own callers and tests: RandomRange min<=max with max-min+1 representable; '
+        'RandomRangeNonUniform 0<=min<=max<INT_MAX, 0<=x<INT_MAX; Gamma ia 0..50; Zipf skew in (1,10], limit>=1',
+        'the all-zero xoshiro state is excluded (documented invalid state of the generator family)',
+    ])
